@@ -63,6 +63,9 @@ class Report:
         shown = 0
         paths = []
         rdir = REPLAY_DIR / self.prop
+        if rdir.exists():
+            import shutil
+            shutil.rmtree(rdir, ignore_errors=True)     # replays of earlier runs are stale
         if self.violations:
             rdir.mkdir(parents=True, exist_ok=True)
         for i, (cid, desc, payload) in enumerate(self.violations[:50]):
